@@ -411,18 +411,42 @@ func c20Isolation(c *mon.Ctx, r *mon.Rand) {
 			hes[i].SamplesV = r.SamplesForValues(fam[i].V, 3)
 		}
 	}
-	ctx := map[string]interface{}{"family": fmt.Sprint(fam), "creation_order": order, "concurrent": concurrent}
+	// half of the sequential cases: the caller re-uses one buffer per length for
+	// the bucket sets it hands to Histogram(), overwriting it between creations
+	reuse := !concurrent && r.Bool()
+	bufV := map[int][]float64{}
+	bufD := map[int][]time.Duration{}
+	ctx := map[string]interface{}{"family": fmt.Sprint(fam), "creation_order": order, "concurrent": concurrent, "caller_reuses_its_slice": reuse}
 	c.Distinct(mon.Hash64(fmt.Sprint(fam), fmt.Sprint(order)))
 	c.Class("isolation-"+kind, 1)
 	if concurrent {
 		c.Class("isolation-concurrent", 1)
 	}
+	if reuse {
+		c.Class("isolation-caller-reuses-its-slice", 1)
+	}
 	create := func(i int) {
 		var b tally.Buckets
 		if fam[i].IsDur {
-			b = tally.DurationBuckets(append([]time.Duration(nil), fam[i].D...))
+			d := append([]time.Duration(nil), fam[i].D...)
+			if reuse {
+				if bufD[len(d)] == nil {
+					bufD[len(d)] = d
+				}
+				copy(bufD[len(d)], d)
+				d = bufD[len(d)]
+			}
+			b = tally.DurationBuckets(d)
 		} else {
-			b = tally.ValueBuckets(append([]float64(nil), fam[i].V...))
+			v := append([]float64(nil), fam[i].V...)
+			if reuse {
+				if bufV[len(v)] == nil {
+					bufV[len(v)] = v
+				}
+				copy(bufV[len(v)], v)
+				v = bufV[len(v)]
+			}
+			b = tally.ValueBuckets(v)
 		}
 		h := scopes[i].Histogram(fmt.Sprintf("h%d", i), b)
 		for _, x := range hes[i].SamplesV {
